@@ -47,7 +47,7 @@ CallRules(s, acc, k) ==
   LET c == [s.calls[k] EXCEPT !.eos = IF @ # 0 THEN 1 ELSE 0]      \* end_of_stream is documented as "non-zero if this is the last input buffer"
       v0 == {}
       \* D1 / D2: accounting
-      v1 == (IF c.c > c.ai \/ c.p > c.ao \/ Len(c.out) # c.p \/ c.touched_outside # 0 THEN {<<k, "D1-wrote-or-read-beyond-avail">>} ELSE {})
+      v1 == (IF c.c > c.ai \/ c.p > c.ao \/ (IF "outlen" \in DOMAIN c THEN c.outlen ELSE Len(c.out)) # c.p \/ c.touched_outside # 0 THEN {<<k, "D1-wrote-or-read-beyond-avail">>} ELSE {})
             \cup (IF c.dti # c.c \/ c.dto # c.p \/ c.dni # c.c \/ c.dno # c.p THEN {<<k, "D2-counters-disagree-with-pointers">>} ELSE {})
       \* D3: parameter validation before any effect
       \* (an invalid-parameter call may be injected mid-stream: bad = 1/4 invalid level, 2/3 missing / undersized level buffer, which only levels 1-3 need)
@@ -108,6 +108,7 @@ EndRules(s, acc) ==
   IN IF s.end.why = "fault" THEN [viol |-> acc.viol \cup {<<n, "C05-memory-fault-in-call">>}, stats |-> [nblocks |-> 0, match |-> FALSE, types |-> <<>>]]
      ELSE IF s.end.why \in {"cap", "stalled"} THEN [viol |-> acc.viol \cup {<<n, "D10-did-not-terminate-" \o s.end.why>>}, stats |-> [nblocks |-> 0, match |-> FALSE, types |-> <<>>]]
      ELSE IF s.end.why # "end" THEN [viol |-> acc.viol, stats |-> [nblocks |-> 0, match |-> FALSE, types |-> <<>>]]
+     ELSE IF "nodecode" \in DOMAIN s /\ s.nodecode = 1 THEN [viol |-> acc.viol, stats |-> [nblocks |-> 0, match |-> FALSE, types |-> <<>>]]   \* memory-safety sweep: per-call rules only
      ELSE IF Len(s.dict_points) > 0 THEN
      \* D12: a dictionary installed after a completed FULL flush: the stream up to that point decodes on its own to the input
      \* so far, and the rest decodes, with the dictionary as preset history, to the rest of the input
